@@ -136,6 +136,9 @@ pub struct RunSpec {
     /// Bytes to feed on stdin (None = /dev/null).
     pub stdin: Option<Vec<u8>>,
     pub path_prefix: Option<String>,
+    /// Standard output is this file (relative to the working directory, created or truncated
+    /// before rg starts, as a shell does for `> file`); its content is reported as stdout.
+    pub stdout_file: Option<String>,
 }
 
 #[derive(Clone, Debug, Default)]
@@ -220,7 +223,16 @@ impl Ctx {
         for (k, v) in &spec.env {
             cmd.env(k, v);
         }
-        cmd.stdin(if spec.stdin.is_some() { Stdio::piped() } else { Stdio::null() }).stdout(Stdio::piped()).stderr(Stdio::piped());
+        cmd.stdin(if spec.stdin.is_some() { Stdio::piped() } else { Stdio::null() }).stderr(Stdio::piped());
+        match &spec.stdout_file {
+            Some(f) => {
+                let file = std::fs::File::create(cwd.join(f)).unwrap_or_else(|e| harness_error(&format!("cannot create {f}: {e}")));
+                cmd.stdout(file);
+            }
+            None => {
+                cmd.stdout(Stdio::piped());
+            }
+        }
         let mut child = cmd.spawn().unwrap_or_else(|e| harness_error(&format!("cannot start {RG}: {e}")));
         if let Some(data) = &spec.stdin {
             let mut si = child.stdin.take().unwrap();
@@ -230,11 +242,13 @@ impl Ctx {
                 let _ = si.write_all(&data);
             });
         }
-        let mut so = child.stdout.take().unwrap();
+        let so = child.stdout.take();
         let mut se = child.stderr.take().unwrap();
         let t_out = std::thread::spawn(move || {
             let mut v = vec![];
-            let _ = so.read_to_end(&mut v);
+            if let Some(mut so) = so {
+                let _ = so.read_to_end(&mut v);
+            }
             v
         });
         let t_err = std::thread::spawn(move || {
@@ -278,7 +292,11 @@ impl Ctx {
             }
             out
         };
-        let stdout = scrub(t_out.join().unwrap_or_default());
+        let piped = t_out.join().unwrap_or_default();
+        let stdout = scrub(match &spec.stdout_file {
+            Some(f) => std::fs::read(cwd.join(f)).unwrap_or_default(),
+            None => piped,
+        });
         let stderr = scrub(t_err.join().unwrap_or_default());
         use std::os::unix::process::ExitStatusExt;
         let code = status.map(|s| s.code().unwrap_or(-(s.signal().unwrap_or(0)))).unwrap_or(-999);
@@ -312,7 +330,7 @@ pub fn lines(b: &[u8]) -> Vec<&[u8]> {
 }
 
 pub fn spec_json(spec: &RunSpec) -> Value {
-    json!({"args": spec.args, "fault_plan": spec.plan, "schedule": spec.sched.as_ref().map(|s| json!({"seed": s.seed, "strategy": s.strategy, "choices": s.replay})), "env": spec.env, "path_prefix": spec.path_prefix})
+    json!({"args": spec.args, "fault_plan": spec.plan, "schedule": spec.sched.as_ref().map(|s| json!({"seed": s.seed, "strategy": s.strategy, "choices": s.replay})), "env": spec.env, "path_prefix": spec.path_prefix, "stdout_file": spec.stdout_file})
 }
 
 pub fn spec_from_json(v: &Value) -> RunSpec {
@@ -332,6 +350,7 @@ pub fn spec_from_json(v: &Value) -> RunSpec {
         env: v["env"].as_array().map(|a| a.iter().map(|e| (e[0].as_str().unwrap_or("").to_string(), e[1].as_str().unwrap_or("").to_string())).collect()).unwrap_or_default(),
         stdin: None,
         path_prefix: v["path_prefix"].as_str().map(String::from),
+        stdout_file: v["stdout_file"].as_str().map(String::from),
     }
 }
 
